@@ -164,7 +164,7 @@ def edge_literal(body, prog, origin, bi, label, relevant):
     return (atom, label[1])
 
 
-def conditions(body, target, relevant=None, entry=0, origin=None, cap=256, stop_at=None):
+def conditions(body, target, relevant=None, entry=0, origin=None, cap=3000, stop_at=None):
     """DNF path condition of reaching block `target` from `entry` along normal (non-unwind)
     edges without re-entering `entry` (back edges into entry are not followed).
     Returns a set of frozensets of literals, or None if the cap is exceeded."""
@@ -220,6 +220,59 @@ def conditions(body, target, relevant=None, entry=0, origin=None, cap=256, stop_
             order.append(b)
             stack.pop()
     order.reverse()
+    # ---- materialised booleans: `_x = false` on short-circuit paths / `_x = <cond>` on the last one, then `switch _x`.
+    # Track, per path, what each bool local was last assigned (path-sensitive), so that the later switch contributes the
+    # real condition (or prunes the infeasible edge) instead of an opaque phi atom.
+    bool_sets = {}
+    for bi in can:
+        lst = []
+        for si, st in enumerate(body.blocks[bi]["stmts"]):
+            if st["k"] == "assign" and not st["p"]["proj"] and body.locals[st["p"]["l"]]["ty"] == "bool" and st["p"]["l"] != 0:
+                r = st["r"]
+                if r["k"] == "use" and r["o"]["k"] == "const" and "v" in r["o"]:
+                    lst.append((st["p"]["l"], ("const", r["o"]["v"], "bool")))
+                elif r["k"] in ("binop", "unop") or (r["k"] == "use" and r["o"]["k"] in ("copy", "move")):
+                    lst.append((st["p"]["l"], ("expr", bi, si)))
+        t = body.blocks[bi]["term"]
+        if t["k"] == "call" and not t["dest"]["proj"] and body.locals[t["dest"]["l"]]["ty"] == "bool":
+            lst.append((t["dest"]["l"], ("callres", bi)))
+        if lst:
+            bool_sets[bi] = lst
+
+    def switch_root(bi):
+        t = body.blocks[bi]["term"]
+        if t["k"] != "switch" or t["o"]["k"] not in ("copy", "move") or t["o"]["p"]["proj"]:
+            return None
+        l = t["o"]["p"]["l"]
+        if body.locals[l]["ty"] != "bool":
+            return None
+        # chase `_t = copy L` inside the same block
+        for st in reversed(body.blocks[bi]["stmts"]):
+            if st["k"] == "assign" and st["p"]["l"] == l and not st["p"]["proj"]:
+                r = st["r"]
+                if r["k"] == "use" and r["o"]["k"] in ("copy", "move") and not r["o"]["p"]["proj"]:
+                    return r["o"]["p"]["l"]
+                return None
+        return l
+
+    def apply_sets(conj, bi):
+        lst = bool_sets.get(bi)
+        if not lst:
+            return conj
+        d = {a: v for (a, v) in conj}
+        for (l, val) in lst:
+            if val[0] == "expr":
+                st = body.blocks[val[1]]["stmts"][val[2]]
+                e = origin._rvalue(st["r"], (val[1], val[2]), 0)
+                if e[0] == "const":
+                    val = e
+                else:
+                    val = ("e", e)
+            elif val[0] == "callres":
+                val = ("e", origin.call_expr(val[1]))
+            d[("$set", l)] = val
+        return frozenset(d.items())
+
     state = defaultdict(set)
     state[entry] = {frozenset()}
     for b in order:
@@ -230,13 +283,36 @@ def conditions(body, target, relevant=None, entry=0, origin=None, cap=256, stop_
             continue
         if stop_at and b in stop_at and b != entry:
             continue
+        root = switch_root(b)
         for (s, lab) in edges(b):
             if (b, s) in back:
                 continue
-            lit = edge_literal(body, prog, origin, b, lab, relevant)
-            for conj in cur:
+            for conj0 in cur:
+                conj = apply_sets(conj0, b) if lab[0] in ("sw", "goto") or True else conj0
+                lit = None
+                handled = False
+                if root is not None and lab[0] == "sw":
+                    d = dict(conj)
+                    sv = d.get(("$set", root))
+                    if sv is not None:
+                        handled = True
+                        # value taken on this edge
+                        if lab[1] == "otherwise":
+                            taken = [v for v in (0, 1) if v not in lab[2]]
+                        else:
+                            taken = [lab[1]]
+                        if sv[0] == "const":
+                            if sv[1] not in taken:
+                                continue  # infeasible edge on this path
+                        else:
+                            e = sv[1]
+                            if len(taken) == 1 and (relevant is None or relevant(e)):
+                                lit = (e, taken[0])
+                        # the materialised bool is consumed
+                        conj = frozenset((a, v) for (a, v) in conj if a != ("$set", root))
+                if not handled:
+                    lit = edge_literal(body, prog, origin, b, lab, relevant)
                 if lit is not None:
-                    # contradiction check: same atom with different value
                     bad = False
                     for (a, v) in conj:
                         if a == lit[0] and contradicts(v, lit[1]):
@@ -252,7 +328,10 @@ def conditions(body, target, relevant=None, entry=0, origin=None, cap=256, stop_
                 state[s] = absorb(state[s])
                 if len(state[s]) > cap:
                     return None
-    return absorb(state.get(target, set()))
+    res = set()
+    for conj in state.get(target, set()):
+        res.add(frozenset((a, v) for (a, v) in conj if not (isinstance(a, tuple) and a and a[0] == "$set")))
+    return absorb(res)
 
 
 def contradicts(v1, v2):
